@@ -26,6 +26,9 @@ def specs(tier, seed, chk):
             around = [4096 + d for d in range(-12, 9)] + [2048 + d for d in range(-5, 4)]
             big = [8192, 16384, 32767, 32768, 40000, 65000, 65400, 65490, 65499, 65500, 65503, -70000, -66000, -65536, -65500]
             s["hostile"]["fwd"] = around[k % 3::3] + [big[k % len(big)], big[(k + 5) % len(big)], 12 + k % 40, 1, 11]
+        if i % 4 == 2:
+            # a hostile tunnel user in DNS mode: arbitrary bytes in the data part under every upstream codec
+            s["hostile"]["codecbytes"] = 6 if tier == "quick" else 12
     return sp
 
 
